@@ -1,7 +1,7 @@
 #!/bin/bash
 # seed_recheck.sh [dir ...]  -- re-run the quick check of every recorded seeded change
 # (seeded/<dir>/patch.diff) against the CURRENT checks and the CURRENT /repo HEAD, and write
-# seeded/RECHECK.md. Every patch is applied in a scratch worktree under /tmp/sv, removed afterwards.
+# seeded/RECHECK.last-pass.md (seeded/RECHECK.md is the merged table of all passes, kept by hand). Every patch is applied in a scratch worktree under /tmp/sv, removed afterwards.
 export GOFLAGS=-mod=mod GOPROXY=off; unset GOSUMDB
 cd "$(dirname "$0")" || exit 2
 dirs="$@"; [ -z "$dirs" ] && dirs=$(ls seeded | grep -E '^C[0-9]+(-r[0-9]+)?$')
@@ -34,5 +34,5 @@ git clean -fdq replays/ 2>/dev/null
   sort $out | awk -F'\t' '{printf "| %s | %s | %s |\n", $1, $2, $3}'
   echo
   echo "caught: $(grep -c $'\tcaught\t' $out)  missed: $(grep -c $'\tMISSED\t' $out)  other: $(grep -vc $'\tcaught\t\|\tMISSED\t' $out)"
-} > seeded/RECHECK.md
-tail -1 seeded/RECHECK.md
+} > ${RECHECK_OUT:-seeded/RECHECK.last-pass.md}
+tail -1 ${RECHECK_OUT:-seeded/RECHECK.last-pass.md}
